@@ -1,0 +1,7 @@
+//go:build !verif
+
+package ugo
+
+// verifSync marks a synchronisation point of the abort protocol; it does nothing unless the
+// package is built with the verif tag.
+func verifSync(string, *VM) {}
